@@ -272,6 +272,28 @@ theorem C20_perf_reports_definitions (o : Orc) (t0 t1 tEnd : Int) (values : List
   simp only [soft, Except.ok.injEq] at hm hr
   exact ⟨hm.symm, hr.symm⟩
 
+/-- the Sharpe ratio and the volatility **as reported by `performance_metrics`** for a positive series: with
+    `d`, `i` the duration and interval derived from the index, `sharpe = ((last/first)^(365/d) − 1 − rf) / volatility` and
+    `volatility = std(return multiples) · sqrt(365/i)` — the reported volatility (computed from `pct_change`) is exactly
+    the Sharpe denominator -/
+theorem C20_perf_sharpe_and_volatility (o : Orc) (t0 t1 tEnd : Int) (x : Rat) (r : List Rat) (rf : Rat)
+    (bench : Option (List Rat)) (p : Perf) (h : performanceMetrics o t0 t1 tEnd (x :: r) rf bench = .ok p)
+    (hp : AllPos (x :: r)) (hi : p.intervalInDay ≠ 0) (hd : p.durationInDay ≠ 0) (pw v s q : Rat)
+    (hpow : o.pow (lastOf (x :: r) / x) (365 / p.durationInDay) = some pw)
+    (hv : sampleVar (multiplesFrom x r) = .ok v) (hs : o.sqrt v = some s) (hq : o.sqrt (365 / p.intervalInDay) = some q)
+    (hsq : s * q ≠ 0) :
+    p.sharpe = some ((pw - 1 - rf) / (s * q)) ∧ p.volatility = some (s * q) := by
+  obtain ⟨_, _, _, _, _, _, _, _, hsh, hvol, _⟩ := C20_perf_entries o t0 t1 tEnd (x :: r) rf bench p h
+  rw [C20_sharpe_formula o p.intervalInDay p.durationInDay rf x r hp hi hd pw v s q hpow hv hs hq hsq] at hsh
+  have hvol' : perfVolatility o (x :: r) p.intervalInDay = .ok (s * q) := by
+    unfold perfVolatility
+    simp only [shiftRatios, allSome_ratiosFrom x r hp]
+    rw [C20_volatility_rates_eq_multiples]
+    exact C20_volatility_formula o (multiplesFrom x r) p.intervalInDay v s q hi hv hs hq
+  rw [hvol'] at hvol
+  simp only [soft, Except.ok.injEq] at hsh hvol
+  exact ⟨hsh.symm, hvol.symm⟩
+
 /-- for a regular index (`tEnd − t0 = (n − 1)·(t1 − t0)`) the duration is `n` sampling intervals, whatever the interval -/
 theorem C20_perf_duration_regular_index (o : Orc) (t0 t1 tEnd : Int) (values : List Rat) (rf : Rat) (bench : Option (List Rat))
     (p : Perf) (h : performanceMetrics o t0 t1 tEnd values rf bench = .ok p)
